@@ -898,7 +898,30 @@ func (c *Canon) atom(e ast.Expr) *F {
 					}
 				}
 			}
-			return MakeCmp(x.Op, l, r, lc, rc)
+			f := MakeCmp(x.Op, l, r, lc, rc)
+			// a comparison of an unsigned operand with 0: the operand is non-negative (x > 0 and x != 0 say the same)
+			unsigned := func(e ast.Expr) bool {
+				t := c.Info.TypeOf(e)
+				if t == nil {
+					return false
+				}
+				b, ok := t.Underlying().(*types.Basic)
+				return ok && b.Info()&types.IsUnsigned != 0
+			}
+			mark := func(g *F, t string) {
+				for g != nil && g.Op == OpNot && len(g.Kids) == 1 {
+					g = g.Kids[0]
+				}
+				if g != nil && g.Cmp != nil {
+					g.Cmp.NonNeg = t
+				}
+			}
+			if rc == "0" && unsigned(x.X) {
+				mark(f, l)
+			} else if lc == "0" && unsigned(x.Y) {
+				mark(f, r)
+			}
+			return f
 		}
 	}
 	return &F{Op: OpAtom, Key: c.Term(e)}
